@@ -296,6 +296,22 @@ def c11_scenarios(tier, seed):
     return out
 
 
+def sibling_confusion_scenarios(batches=(1, 2, 3, BIG)):
+    """siblings of the same span type with different sub-trees: the shape X = R[c1, c2] stored twice, once in each
+    sibling order, next to the shapes it must not be confused with, R[c1, c1] and R[c2, c2] (three classes, X twice)"""
+    out = []
+    for t in ("A", "B"):
+        subs = [(t, []), (t, [("A", [])]), (t, [("B", [])]), (t, [("A", []), ("B", [])])]
+        for c1, c2 in itertools.combinations(subs, 2):
+            trees = [("A", [c1, c2]), ("A", [c2, c1]), ("A", [c1, c1]), ("A", [c2, c2])]
+            per = [tree_spans(sh, "j%d" % (i + 1), "n1", "t%d_" % (i + 1), t0=2) for i, sh in enumerate(trees)]
+            for b in batches:
+                for rev in (False, True):
+                    st = [s for p in (reversed(per) if rev else per) for s in (reversed(p) if rev else p)]
+                    out.append({"B": b, "buf": 0, "runs": [{"ing": True, "ug": True, "spans": list(st)}]})
+    return out
+
+
 def c09_window_scenarios(tier, seed):
     """unique-graph selection with a time buffer: traces before / after / straddling the buffered window next to
     same-shaped traces inside it (the candidates are the roots of the traces that have a span starting or ending inside
